@@ -115,15 +115,38 @@ def schema_bij(ctx: Ctx, chk) -> None:
     cs = Canon(ctx.I, save)
     st = [n for n in ctx.own_nodes(save) if isinstance(n, ast.Assign) and isinstance(n.targets[0], ast.Subscript)]
     loops = [n for n in ctx.own_nodes(save) if isinstance(n, ast.For)]
-    ok = len(st) == 1 and len(loops) == 1 and norm(loops[0].iter) == "self.nodes.values()" and isinstance(loops[0].target, ast.Name) and norm(st[0].targets[0].slice) == f"{loops[0].target.id}.node_id" and isinstance(st[0].value, ast.Call) and norm(st[0].value.func).endswith(".dump") and norm(st[0].value.args[0]) == loops[0].target.id
+    comps = [n for n in ctx.own_nodes(save) if isinstance(n, ast.DictComp)]
+    records_name = None
+    ok = False
+    if len(st) == 1 and len(loops) == 1:
+        ok = norm(loops[0].iter) == "self.nodes.values()" and isinstance(loops[0].target, ast.Name) and norm(st[0].targets[0].slice) == f"{loops[0].target.id}.node_id" and isinstance(st[0].value, ast.Call) and norm(st[0].value.func).endswith(".dump") and norm(st[0].value.args[0]) == loops[0].target.id
+        records_name = norm(st[0].targets[0].value)
+        where = st[0]
+    elif len(comps) == 1 and not st:
+        c = comps[0]
+        g0 = c.generators[0] if len(c.generators) == 1 else None
+        ok = g0 is not None and not g0.ifs and norm(g0.iter) == "self.nodes.values()" and isinstance(g0.target, ast.Name) and norm(c.key) == f"{g0.target.id}.node_id" and isinstance(c.value, ast.Call) and norm(c.value.func).endswith(".dump") and norm(c.value.args[0]) == g0.target.id
+        par = ctx.prog.parents.get(c)
+        records_name = norm(par.targets[0]) if isinstance(par, ast.Assign) else None
+        where = c
+    else:
+        where = save.node
     if ok:
-        chk.ok(rule, f"{save.fq}::records", "data[node.node_id] = schema.dump(node) for every node", ctx.loc(save, st[0]))
+        chk.ok(rule, f"{save.fq}::records", "data[node.node_id] = schema.dump(node) for every node", ctx.loc(save, where))
     else:
         chk.refute(rule, f"{save.fq}::records", "save does not dump every node of the registry under its node_id", save.where)
     chk.instance(rule)
     dumps = [n for n in ctx.own_nodes(save) if isinstance(n, ast.Call) and norm(n.func) == "json.dumps"]
     writes = [n for n in ctx.own_nodes(save) if isinstance(n, ast.Call) and isinstance(n.func, ast.Attribute) and n.func.attr == "write"]
-    if len(dumps) == 1 and len(writes) == 1 and dumps[0] in list(ast.walk(writes[0])) and norm(dumps[0].args[0]) == norm(st[0].targets[0].value) if st else False:
+    wok = len(dumps) == 1 and len(writes) == 1 and records_name is not None and norm(dumps[0].args[0]) == records_name
+    if wok:
+        a0 = writes[0].args[0] if writes[0].args else None
+        if isinstance(a0, ast.Name):
+            la = ctx.I.local_assigns(save).get(a0.id) or []
+            wok = len(la) == 1 and la[0] is dumps[0]
+        else:
+            wok = a0 is dumps[0]
+    if wok:
         chk.ok(rule, f"{save.fq}::write", "the JSON text of all records is written", ctx.loc(save, writes[0]), sample=False)
     else:
         chk.refute(rule, f"{save.fq}::write", "save does not write json.dumps(<all records>)", save.where)
